@@ -402,7 +402,7 @@ example : Code.KeysOK (.list [.int .plain 1, .str .plain ['x']]) ∧
 
 example : inferTy (.list [.list [.int .plain 1], .list []]) = some (.array (.array (.basic .i))) ∧
     Travels okPathV (.list [.list [.int .plain 1], .list []]) (.array (.array (.basic .i))) := by
-  refine ⟨by ev, .list _ _ (by simp [Ty.notEntry]) ?_⟩
+  refine ⟨by simp [inferTy, sameClass, PyVal.pyType, IntCls.basic?, intBasic], .list _ _ (by simp [Ty.notEntry]) ?_⟩
   intro e he
   simp at he
   rcases he with rfl | rfl
